@@ -9,7 +9,7 @@ RULE = ("all well-formed note sets over the tick lattice (pairs over the full la
         "distinct = distinct (steps, notes, events); non-trivial = some event moves or some note is dropped")
 ASSUMPTIONS = ["input sequences are well-formed (property precondition)",
                "tie-breaking between equidistant grid points and the choice of surviving note are not demanded"]
-REQUIRED_FLAGS = ["after_history", "same_pitch_two_channels", "note_dropped", "event_moved", "isolated_note_checked",
+REQUIRED_FLAGS = ["step_list_object_reused", "after_history", "same_pitch_two_channels", "note_dropped", "event_moved", "isolated_note_checked",
                   "collapse_candidate", "non_note_event"]
 
 STEP_LISTS = [[4], [6], [8], [4, 6], [6, 4], [3, 4], [8, 12]]
@@ -51,6 +51,19 @@ def units(ctx):
             for i in range(len(cell4)):
                 yield ("quads", si, i)
     yield from hist.hist_units()
+    for wi in range(len(WIDE)):
+        for i in range(12):
+            yield ("wide", wi, i)
+
+
+WIDE = [([120, 80], 160, 3), ([80, 120], 240, 3), ([30, 50], 100, 2), ([50, 30], 90, 2)]   # (steps, grid point, spacing)
+
+
+def _wide_alpha(ctx, wi):
+    steps, g, sp = WIDE[wi]
+    p, (c0, c1) = ctx["p"], ctx["ch"]
+    ons = [g - 6 * sp + k * sp for k in range(8)]
+    return [(o, l, p, c) for o in ons for l in (sp - 1, 7 * sp) for c in (c0,)] + [(ons[2], sp - 1, p, c1), (ons[4], 7 * sp, p + 1, c0)]
 
 
 def _mk(notes):
@@ -63,9 +76,25 @@ def gen_cases(unit, ctx):
         for h in hist.hist_of_unit(unit):
             for steps in ([4], [6, 4], [8, 12], [120, 80]):
                 yield {"seed": unit[1], "build": unit[2], "hist": h, "steps": steps}
+            yield {"seed": unit[1], "build": unit[2], "hist": h, "steps": [8, 12], "reuse_list_after": [7]}
         return
     quick = ctx["tier"] == "quick"
     kind, si = unit[0], unit[1]
+    if kind == "wide":
+        al = _wide_alpha(ctx, si)
+        i = unit[2]
+        if i < len(al):
+            for j in range(i + 1, len(al)):
+                if lib.well_formed([al[i], al[j]]):
+                    yield {"steps": WIDE[si][0], "notes": _mk([al[i], al[j]]), "events": []}
+                    for k in range(j + 1, len(al)):
+                        if lib.well_formed([al[i], al[j], al[k]]):
+                            yield {"steps": WIDE[si][0], "notes": _mk([al[i], al[j], al[k]]), "events": []}
+                            if not quick:
+                                for m in range(k + 1, len(al)):
+                                    if lib.well_formed([al[i], al[j], al[k], al[m]]):
+                                        yield {"steps": WIDE[si][0], "notes": _mk([al[i], al[j], al[k], al[m]]), "events": []}
+        return
     steps = STEP_LISTS[si]
     S = max(steps)
     p, (c0, c1) = ctx["p"], ctx["ch"]
@@ -156,6 +185,19 @@ def check_case(case, ctx):
         if live is None:
             return R
         s, notes, events, _ = live
+        steps_obj = list(steps)
+        if case.get("reuse_list_after"):
+            # the caller's own list object: quantise with it, change it in place, quantise again
+            steps_obj = list(case["reuse_list_after"])
+            s.quantise(steps_obj)
+            from mc.hist import observe_desc
+            d2 = observe_desc(s)
+            if d2 is None:
+                R.outcome = "first_quantise_leaves_unobservable_state"
+                return R
+            notes, events = [list(n) for n in d2[0]], [list(e) for e in d2[1]]
+            steps_obj[:] = steps
+            R.flags.append("step_list_object_reused")
         # identify notes by velocity in the oracle below: velocities must be distinct
         if len({n[4] for n in notes}) < len(notes):
             R.outcome = "history_duplicates_velocities"
@@ -165,7 +207,7 @@ def check_case(case, ctx):
         s = lib.seq_abs(notes, events)
     in_ev, _, _ = lib.view_abs(s)
     try:
-        s.quantise(list(steps))
+        s.quantise(steps_obj if "hist" in case else list(steps))
         out_ev, _, _ = lib.view_abs(s)
     except Exception as e:  # noqa: BLE001
         R.bad("quantise_raises", f"{type(e).__name__}: {e}")
